@@ -80,6 +80,18 @@ add("C07", "netbed", "property-based testing with an independent protocol reader
     "Sequences of the six send-side operations with generated arguments in both framing modes (incl. asymmetric flag offers, unencodable operations, never-connected and closed connections) are read back by an independent deframer and reader and compared with the protocol's control tuple; 1..5 tasks issue operations through one Node under generated schedules that yield between the partial writes of a frame: frames must not interleave and per-task order must hold.",
     "Task interleaving is controlled at sched_point hooks and real I/O waits only.",
     "DESIGN.md §7 C07")
+add("C17", "netbed", "stateful property-based testing: generated waves of concurrent remote calls against a scripted peer (replies in generated order, late / duplicate / stray replies, silence, peer close before or during a wave) + generated task schedules, virtual clock",
+    "1..3 waves of 1..6 concurrent rpc_call_raw_with_timeout calls through one Node, each with its own virtual timeout and a unique argument; the peer answers at once, late, never, twice, or again during the next wave, in generated order, sends replies to pids that never had a call, and closes before or during the last wave. A call must return its own reply or a timeout / cancellation / connection error, never another call's reply; a reply consumed before the timeout must not be reported as a timeout; when all calls have returned the outstanding-call table must be empty (hook accessor).",
+    "Virtual time moves only when the script advances it; task interleaving is controlled at sched_point hooks (registration / wait / lookup steps).",
+    "DESIGN.md §7 C17")
+add("C18", "netbed", "model-based stateful property testing (proptest histories of spawn/register/link/monitor/send/failure/$gen_call against a process-table model) under generated yield schedules + unshrunk parallel stress on a multi-threaded runtime",
+    "Histories over recorder processes, a GenServerProcess and a GenEventManager on a started Node are interpreted against a model of liveness, names, links and monitors; every handler log must equal the model (each accepted message once and in sender order, exactly one Exit/MonitorExit per surviving linked/monitoring process with the right pid and reference, none after unlink/demonitor), dead pids and their names stop resolving and names can be re-registered, a held name cannot be taken, whereis/registered/process_count agree, each $gen_call is answered once with the caller's reference. A second campaign asks the same questions with real parallelism (4 workers): parallel senders, parallel registration of one free name, simultaneous failures.",
+    "Deterministic interleavings are controlled at sched_point hooks; sends racing with a failure and links created while the target dies are not generated (the statement gives no outcome for them). The parallel campaign is not schedule-pinned: its failing inputs are saved unshrunk and replayed 40 times.",
+    "DESIGN.md §7 C18")
+add("C19", "netbed", "property-based testing of inbound scripts from a scripted peer (valid routes, unroutable targets, ignored kinds, malformed frames, ticks, silence, bursts into a busy mailbox, fatal transport events) against a routing model",
+    "Generated inbound scripts over a real loopback socket: every SEND/REG_SEND/EXIT/MONITOR_P_EXIT for a live process must reach exactly that process once and in order, unroutable or malformed input must change nothing and must not stop the receiver (a marker message after each bad item must still arrive), quiet periods with peer ticks must not drop the connection, and transport-fatal events must remove the connection and let calls fail.",
+    "Inbound frames in pass-through form (header-mode decoding is C06/C14's subject).",
+    "DESIGN.md §7 C19")
 
 hooks_commits = []
 try:
